@@ -46,9 +46,11 @@ def O0 : Oracles := { reMatch := fun _ _ => false }
 def rho0 : String → FieldDecl := fun r => .struct { name := r, required := [], accepts := [r] } [] []
 
 /-- the generated field accepts the document value (deserialization + validation), as a Bool -/
-def acceptsB (f : FieldDecl) (v : PyVal) : Bool :=
-  match deser O0 {} false f v with
-  | .ok y => (match validate O0 f y with | .ok _ => true | .error _ => false)
+def acceptsWith (O : Oracles) (f : FieldDecl) (v : PyVal) : Bool :=
+  match deser O {} false f v with
+  | .ok y => (match validate O f y with | .ok _ => true | .error _ => false)
   | .error _ => false
+
+def acceptsB (f : FieldDecl) (v : PyVal) : Bool := acceptsWith O0 f v
 
 end Typedpy.CodeExact
